@@ -19,7 +19,7 @@ CONFIGS = {
 }
 
 # adsorption (0) / desorption (1) marks of the three abstract points: both branches, one branch only, user-assigned
-BRANCH_PATTERNS = {"two": (0, 0, 1), "all-ads": (0, 0, 0), "all-des": (1, 1, 1), "user": (1, 0, 1)}
+BRANCH_PATTERNS = {"two": (0, 0, 1), "all-ads": (0, 0, 0), "all-des": (1, 1, 1), "user": (1, 0, 1), "zero-start": (0, 0, 1)}
 
 ISO_CLASSES = {"point": "pygaps.core.pointisotherm.PointIsotherm", "model": "pygaps.core.modelisotherm.ModelIsotherm",
                "base": "pygaps.core.baseisotherm.BaseIsotherm"}
@@ -97,9 +97,12 @@ class RT:
                                       "loading_range": (Num.atom("lr0"), Num.atom("lr1")), "rmse": Num.atom("rmse")}, None)
 
     def mk_frame(self):
-        marks = BRANCH_PATTERNS[getattr(self, "branch_pattern", "two")]
-        return MiniFrame({"pressure": [Num.atom("p0"), Num.atom("p1"), Num.atom("p2")],
-                          "loading": [Num.atom("l0"), Num.atom("l1"), Num.atom("l2")],
+        pat = getattr(self, "branch_pattern", "two")
+        marks = BRANCH_PATTERNS[pat]
+        # "zero-start": a measurement that starts from vacuum - an exact 0 in the pressure and loading columns
+        p0, l0 = (Num.const(0), Num.const(0)) if pat == "zero-start" else (Num.atom("p0"), Num.atom("l0"))
+        return MiniFrame({"pressure": [p0, Num.atom("p1"), Num.atom("p2")],
+                          "loading": [l0, Num.atom("l1"), Num.atom("l2")],
                           "branch": [Num.const(b) for b in marks],
                           "enthalpy": [Num.atom("h0"), docsim.NAN, Num.atom("h2")],
                           "note": [Tok("c0"), Tok("c1"), Tok("c2")],
